@@ -90,7 +90,7 @@ const OTHER_TYPES: &[(&str, &str)] = &[
     ("application", "json+protobuf"),
     ("application", "x-jackson-smile+gzip"),
     ("application", "problem+json"),
-    ("application", "cbor+x"),
+    ("application", "cbor+xml"),
     ("text", "x-harness+zip"),
 ];
 
